@@ -15,7 +15,7 @@ F(u,t) = A u + b cos(t) (split as A_I/A_E for IMEX), exact direct solve. It reco
 
 import numpy as np
 from vc import sym
-from vc.vec import Vec, vec_syntactic_equal
+from vc.vec import Vec, vec_syntactic_equal, vec_provably_equal, scalar_provably_equal
 
 
 class Rec:
@@ -128,6 +128,12 @@ class AbstractProblem:
     def eval_f(self, u, t, *args, **kwargs):
         for r in self.evals:
             if vec_syntactic_equal(r.u, u) and _same_scalar(r.t, t):
+                if self.trace is not None:
+                    self.trace.append(('eval_f', self.name, r))
+                return self._copy_f(r.f)
+        # congruence under the path condition: F is a function, provably equal arguments give equal values
+        for r in self.evals:
+            if scalar_provably_equal(r.t, t) and vec_provably_equal(r.u, u):
                 if self.trace is not None:
                     self.trace.append(('eval_f', self.name, r))
                 return self._copy_f(r.f)
